@@ -52,7 +52,52 @@ def fold(t, ctx, env=None, depth=0):
         g = ctx.S.glob_terms.get(t.a[0])
         if g is None or g is t:
             raise NotConstant(t.a[0])
-        return fold(g, ctx, env, depth + 1)
+        e2 = dict(env)
+        e2["__module__"] = t.a[0].split(".")[0]
+        return fold(g, ctx, e2, depth + 1)
+    if op == "loop":
+        # a module-level `for` that fills a table: run it on the folded iterable
+        lid, name, init, body = t.a
+        it = getattr(ctx.S, "_modloops", {}).get((env.get("__module__"), lid))
+        if it is None:
+            raise NotConstant("loop %s outside module level" % lid)
+        cur = fold(init, ctx, env, depth + 1)
+        seq = fold(it, ctx, env, depth + 1)
+        n = 0
+        for v in seq:
+            n += 1
+            if n > 5000:
+                raise NotConstant("loop too long")
+            e2 = dict(env)
+            e2[tm.mk("iter", it, lid).id] = v
+            e2[("lv", lid, name)] = cur
+            cur = fold(body, ctx, e2, depth + 1)
+        return cur
+    if op == "loopvar":
+        k = ("lv", t.a[0], t.a[1])
+        if k in env:
+            return env[k]
+        raise NotConstant("loop variable outside its loop")
+    if op == "upd":
+        base, how, key, val = t.a
+        b = fold(base, ctx, env, depth + 1)
+        if how == "setitem" and isinstance(b, dict):
+            out = dict(b)
+            out[fold(key, ctx, env, depth + 1)] = fold(val, ctx, env, depth + 1)
+            return out
+        if how == "setitem" and isinstance(b, list):
+            out = list(b)
+            out[fold(key, ctx, env, depth + 1)] = fold(val, ctx, env, depth + 1)
+            return out
+        if how == "method:append" and isinstance(b, list):
+            v = fold(val, ctx, env, depth + 1)
+            return list(b) + [v[0] if isinstance(v, tuple) and len(v) == 1 else v]
+        if how == "method:update" and isinstance(b, dict):
+            v = fold(val, ctx, env, depth + 1)
+            out = dict(b)
+            out.update(v[0] if isinstance(v, tuple) and len(v) == 1 else v)
+            return out
+        raise NotConstant("update %s" % how)
     if op == "iter":
         key = t.id
         if key in env:
@@ -95,6 +140,19 @@ def fold(t, ctx, env=None, depth=0):
             if len(s.returns) == 1 and not s.func.params and not args:
                 return fold(s.returns[0].term, ctx, env, depth + 1)
             raise NotConstant("call of " + name)
+        if name in (".items", ".keys", ".values") and len(args) == 1 and not kw:
+            d = fold(args[0], ctx, env, depth + 1)
+            if isinstance(d, dict):
+                return list(getattr(d, name[1:])())
+            raise NotConstant("method %s of a non-dict" % name)
+        if name == ".get" and len(args) in (2, 3) and not kw:
+            d = fold(args[0], ctx, env, depth + 1)
+            if isinstance(d, dict):
+                return d.get(fold(args[1], ctx, env, depth + 1), fold(args[2], ctx, env, depth + 1) if len(args) == 3 else None)
+        if name == "builtins.sorted" and len(args) == 1 and not kw:
+            return sorted(fold(args[0], ctx, env, depth + 1))
+        if name == "builtins.enumerate" and len(args) in (1, 2) and not kw:
+            return list(enumerate(fold(args[0], ctx, env, depth + 1), *( [fold(args[1], ctx, env, depth + 1)] if len(args) == 2 else [])))
         if name == "builtins.dict" and len(args) == 1 and not kw:
             return dict(fold(args[0], ctx, env, depth + 1))
         if name == "builtins.dict" and not args:
@@ -164,7 +222,7 @@ def table(ctx, qual, rule):
     if t is None:
         raise AnalysisError(rule, "module constant %s vanished" % qual)
     try:
-        return fold(t, ctx)
+        return fold(t, ctx, {"__module__": qual.split(".")[0]})
     except NotConstant as e:
         raise AnalysisError(rule, "module constant %s is not a foldable table (%s)" % (qual, e))
     except (KeyError, IndexError, TypeError, ValueError, ZeroDivisionError) as e:
